@@ -195,7 +195,7 @@ pub struct Watch {
 }
 
 pub fn hang_limit_ms() -> u64 {
-    std::env::var("VERIF_HANG_MS").ok().and_then(|s| s.parse().ok()).unwrap_or(120_000)
+    std::env::var("VERIF_HANG_MS").ok().and_then(|s| s.parse().ok()).unwrap_or(300_000)
 }
 
 /// Run plans `from..to` on `threads` workers. Blocks of 256 indexes are handed out dynamically; each block's
